@@ -55,17 +55,27 @@ def _hints(v):
 def _exit_hints(v):
     """after the loop: the sorted copies are the same permutation of the caller's arrays, so every weighted count over them
     is the weighted count over the caller's data (the permutation lemma: assumed, see pyvc.induct)"""
-    if v.already_sorted is True:
-        return []
     from pyvc.tarr import square_term
+    from pyvc.values import CURRENT
     D, DA, WA = v.data, v.data_array, v.weights_array
     kd = kind_of_dtype(WA.dtype)
     N = term_of(raw(D.shape[0]), "int")
-    if DA.gather_of is None:         # data_array = data[sort_order]
-        return []
+    out = []
+    # the accounting identity (exactly consecutive bins): a case split, then the lemmas whose hypotheses hold on that case
+    B, nb = v.bins.term, term_of(raw(v.bins.shape[0]), "int")
+    k = z3.Int("%cons_k")
+    consecutive = z3.ForAll([k], z3.Implies(z3.And(k >= 0, k < nb - 1), z3.Select(B, k, 1) == z3.Select(B, k + 1, 0)))
+    if kind_of_dtype(v.frequencies.dtype) == kd and CURRENT["interp"].ctx.branch(consecutive):
+        out.append((induct.monotone_lemma(), (B, nb)))
+        out.append((induct.bins_sum_lemma(kd), (DA.term, WA.term, N, B, nb, v.frequencies.term)))
+        out.append((induct.partition_lemma(kd), (DA.term, WA.term, N, z3.Select(B, 0, 0), z3.Select(B, nb - 1, 1))))
+    if not isinstance(getattr(v, "weights", None), TArr):
+        out.append((induct.constant_sum_lemma(), (N,)))
+    if v.already_sorted is True or DA.gather_of is None:         # data_array = data[sort_order]
+        return out
     p = DA.gather_of[1]
     W = v.weights.term if isinstance(getattr(v, "weights", None), TArr) else z3.K(z3.IntSort(), z3.IntVal(1))
-    out = [(induct.permutation_lemma(kd), (D.term, W, DA.term, WA.term, p, N)), ("squares", WA.term)]
+    out += [(induct.permutation_lemma(kd), (D.term, W, DA.term, WA.term, p, N)), ("squares", WA.term)]
     if not z3.is_K(W):
         out.append(("squares", W))
     out.append((induct.permutation_lemma(kd), (D.term, square_term(W), DA.term, square_term(WA.term), p, N)))
@@ -88,7 +98,9 @@ def _inv(v):
 class _freq_u:
     probe = "quantifier-free"
     lemmas = [induct.slice_sum_lemma(k) for k in ("int", "float")] + [induct.below_lemma(k) for k in ("int", "float")] \
-        + [induct.above_lemma(k) for k in ("int", "float")]
+        + [induct.above_lemma(k) for k in ("int", "float")] + [induct.adjacent_lemma(k) for k in ("int", "float")] \
+        + [induct.partition_lemma(k) for k in ("int", "float")] + [induct.bins_sum_lemma(k) for k in ("int", "float")] \
+        + [induct.monotone_lemma(), induct.constant_sum_lemma()]
     known = {
         # F19b: is_consecutive() compares with np.allclose: bins whose edges differ by less than the tolerance are treated as
         # consecutive, a value in the micro-gap is counted nowhere while under/overflow read as numbers
@@ -126,6 +138,15 @@ class _freq_u:
         return And(Implies(cons, lambda: And(result[2] == wside("below", old.data, W, bins[0, 0]),
                                              result[3] == wside("above", old.data, W, bins[n - 1, 1]))),
                    Implies(Not(cons), lambda: And(isnan(result[2]), isnan(result[3]))))
+
+    @ensures("for_exactly_consecutive_bins_contents_plus_underflow_plus_overflow_is_the_total_input_weight")
+    def _(a, old, result):
+        bins = attr(old.binning, "_bins")
+        n = shape_of(bins)[0]
+        W = getattr(old, "weights", None)
+        cons = forall(0, n - 1, lambda k: bins[k, 1] == bins[k + 1, 0])
+        total_weight = shape_of(old.data)[0] if W is None else total_t(W)
+        return Implies(cons, lambda: total_t(result[0]) + result[2] + result[3] == total_weight)
 
     @ensures("the_inputs_are_not_modified")
     def _(a, old, result):
